@@ -193,12 +193,22 @@ def _acceptance(job):
     from jesse.exceptions import InsufficientBalance, InsufficientMargin
     rng = random.Random(job['seed'])
     viol, cnt, sigs = [], {}, []
-    for _ in range(job['n']):
+    for it in range(job['n']):
         spot = rng.random() < 0.5
         cap = round(math.exp(rng.uniform(math.log(10), math.log(1e6))), rng.choice([0, 1, 2]))
         price = round(math.exp(rng.uniform(math.log(1e-3), math.log(1e5))), rng.choice([2, 3, 4, 6])) or 0.001
         fee = rng.choice([0, 0, 0.0004, 0.001])
         prec = rng.randint(0, 8)
+        if it % 4 == 0:
+            # exactly divisible, fee 0: the quantity costs exactly the capital (the account ends with a balance of exactly 0)
+            price = rng.choice([100.0, 0.25, 12.5, 7.0, 2.0, 0.5, 1250.0])
+            prec = rng.choice([0, 1, 2, 3, 8])
+            k = rng.randint(1, 5000)
+            cap = float(F(price) * k / 10 ** min(prec, 3))
+            fee = 0
+            if F(cap) != F(price) * k / 10 ** min(prec, 3):
+                continue
+            cnt['exactly_divisible_cases'] = cnt.get('exactly_divisible_cases', 0) + 1
         q = ju.size_to_qty(cap, price, precision=prec, fee_rate=fee)
         if q <= 0:
             continue
@@ -213,7 +223,9 @@ def _acceptance(job):
         except (InsufficientBalance, InsufficientMargin) as ex:
             exact = F(q) * F(price)
             key = 'sized_order_rejected_by_fresh_account'
-            if fee == 0 and exact <= F(cap) * (1 + SLACK):
+            if fee == 0 and exact <= F(cap) * (1 + SLACK) and q * price > cap:
+                # (only when the FLOAT product really is above the capital; a rejection although q * price <= capital in
+                # floats as well is a different defect)
                 key = 'fee0_product_rounds_above_capital'
             viol.append({'key': key, 'msg': f'size_to_qty({cap!r}, {price!r}, precision={prec}, fee_rate={fee}) = {q!r}; an order for it '
                                             f'at that price is rejected by a fresh {"spot" if spot else "1x futures"} account holding '
